@@ -268,6 +268,10 @@ func (u *Upstream) WriteDataPoints(ctx context.Context, dataID *message.DataID, 
 		return nil
 	}
 
+	// the flush loop reads the group after this call has returned: it must not alias the caller's slice
+	points := make(DataPoints, len(dps))
+	copy(points, dps)
+
 	select {
 	case <-u.ctx.Done():
 		return errors.ErrStreamClosed
@@ -275,7 +279,7 @@ func (u *Upstream) WriteDataPoints(ctx context.Context, dataID *message.DataID, 
 		return ctx.Err()
 	case u.dpgCh <- &DataPointGroup{
 		DataID:     dataID,
-		DataPoints: dps,
+		DataPoints: points,
 	}:
 	}
 
